@@ -1117,6 +1117,19 @@ def c01(ctx):
     for c, sv, what in big_data_streams(rng, quick):
         add(raw(c, sv, ctail=0, stail=0), ("bigdata", {"kind": "h2", "what": what}, None))
         add(raw(H2_PREFACE + sv, c[len(H2_PREFACE):], ctail=0, stail=0), ("bigdata", {"kind": "h2", "what": what + " (server half)"}, None))
+    # very many streams open at once (HEADERS or DATA seen, no END_STREAM), then the oldest ones end
+    hpl = b"\x82\x84\x86\x41\x01h"
+    for nopen in ((90, 101, 130, 300) if quick else (90, 100, 101, 102, 130, 300, 1000, 5000)):
+        for first in ("headers", "data"):
+            c = bytearray(H2_PREFACE + h2_frame(4, 0, 0, b""))
+            for k in range(nopen):
+                c += h2_frame(1, 4, 2 * k + 1, hpl) if first == "headers" else h2_frame(0, 0, 2 * k + 1, b"d")
+            for k in (0, 1, nopen // 2, nopen - 1):
+                c += h2_frame(0, 1, 2 * k + 1, b"end")
+            c += h2_frame(1, 5, 2 * nopen + 1, hpl)
+            add(raw(bytes(c), h2_frame(4, 0, 0, b""), ctail=0, stail=0), ("manystreams", {"kind": "h2", "what": "%d open streams (%s first)" % (nopen, first)}, None))
+            add(raw(H2_PREFACE + h2_frame(4, 0, 0, b""), bytes(c[len(H2_PREFACE):]), ctail=0, stail=0),
+                ("manystreams", {"kind": "h2", "what": "%d open streams on the server half (%s first)" % (nopen, first)}, None))
     res = run_cases(ctx, cases, batch=60)
     nviol = 0
     partial_extra = 0
@@ -1247,11 +1260,11 @@ def c02(ctx):
     cases = []
     for enc in encs:
         cb, sb = unb64(enc["c"]), unb64(enc["s"])
-        for tail in (0, 1, 2):
+        for tail in (0, 1, 2, 3, 4):          # 3, 4: an error that says "time-out", once / on every further read
             c = raw(cb, sb, ctail=tail, stail=tail)
             c["_what"] = ("unchanged", tail)
             cases.append(c)
-        fields = enc["fields"]
+        fields = enc.get("fields") or []          # no length field at all (header-less exchanges without bodies): null
         if quick and len(fields) > 14:
             fields = rng.sample(fields, 14)
         for f in fields:
